@@ -103,6 +103,17 @@ Proof.
               (fun z Hz Haz Hlz => merge_all_least S L l a z Ha Hz Hl Haz Hlz))).
 Qed.
 
+(* the same for the crate's LWWSet with no hypothesis left: replicas built by ANY
+   insert/remove sequences that receive the same set of such states — any order,
+   any duplication — are equal (well-formedness is discharged: every state the
+   API can construct is well-formed) *)
+Theorem C22_lwwset_replicas_converge :
+  forall (a : list sop) (l1 l2 : list (list sop)),
+  (forall x, In x l1 <-> In x l2) ->
+  merge_all lwwset_sl (lwwset_build a) (map lwwset_build l1)
+  = merge_all lwwset_sl (lwwset_build a) (map lwwset_build l2).
+Proof. exact lwwset_replicas_converge. Qed.
+
 (* non-vacuity of the convergence theorems: three LWWSet replicas, delivered in
    different orders and with a duplicate *)
 Example C22_example_convergence :
